@@ -4,5 +4,5 @@ CONSTANTS Keys = {1, 2}
           Zero = {2}
           D = 1
           GAttrs = {"ok", "expired", "negttl"}
-INVARIANTS Emit
+INVARIANTS Emit ExpIsVerdict
 CHECK_DEADLOCK FALSE
